@@ -36,7 +36,7 @@ from vlib.dag import labels as dag_labels
 PID = "C09"
 LEVEL = "exploration"
 RULE = (
-    "history: Hypothesis-generated DAG programs (1-5 tracer functions; diamonds, tuple outputs, defaults, bound, "
+    "history: Hypothesis-generated DAG programs (2-5 tracer functions; diamonds, tuple outputs, defaults, bound, "
     "renames, nullary) with a drawn non-empty subset of cache=True functions, built twice: cached (cache_type in "
     "{simple, lru, hybrid, disk}, non-shared mostly, Manager-shared or the implicit default cache rarely; capacity >= "
     "functions x calls, rarely 1-2) and uncached (cache_type=None, no flags), separate tracer logs. A drawn history of "
@@ -85,9 +85,16 @@ _HAZARDS = [
     ("bound_mut", "stale-after-update_bound"),
     ("shadow", "bound-shadows-root-in-key"),
 ]
-_TAG = re.compile(r"f\d+(?:v\d+)?(?=\[)")
+_TAG = re.compile(r"(f\d+)(v\d+)?(?=\[)")
 _SUP = re.compile(r"(?<![A-Za-z0-9])S\d\w+")
 _BND = re.compile(r"(?<![A-Za-z0-9])B\w+")
+
+
+def _versions(text: str) -> dict[str, set[str]]:
+    d: dict[str, set[str]] = {}
+    for f, v in _TAG.findall(text):
+        d.setdefault(f, set()).add(v)
+    return d
 
 
 def _evidence(ru, rc) -> set[str]:
@@ -96,11 +103,12 @@ def _evidence(ru, rc) -> set[str]:
     if none of these, only root values / defaults differ."""
     a, b = repr(ru), repr(rc)
     ev = set()
-    if _TAG.findall(a) != _TAG.findall(b):
+    va, vb = _versions(a), _versions(b)
+    if any(f in vb and vb[f] != va[f] for f in va):  # one function, two versions
         ev.add("replaced")
-    if _SUP.findall(a) != _SUP.findall(b):
+    if sorted(_SUP.findall(a)) != sorted(_SUP.findall(b)):
         ev.add("mixed")
-    if _BND.findall(a) != _BND.findall(b):
+    if sorted(_BND.findall(a)) != sorted(_BND.findall(b)):
         ev.add("bound_mut")
     if not ev:
         ev.add("shadow")
@@ -190,8 +198,14 @@ def _func_level_default(fn: dict, m: DagModel, r: str) -> bool:
     return r in fn["params"] and (r in m.defaults or r in fn["sig_defaults"] or r in fn["pf_defaults"])
 
 
-def _key_computable(fn: dict, m: DagModel, kw: dict) -> bool:
-    return all(r in kw or r in fn["bound"] or _func_level_default(fn, m, r) for r in m.needed_roots(fn["outs"][0]))
+def _key_computable(fn: dict, m: DagModel, kw: dict, any_default: bool = False) -> bool:
+    """Can a root-argument key be formed for fn's output?  any_default=False mirrors what pipefunc consults today (the
+    call's keywords, fn's bound values, defaults known at fn's own level); any_default=True is the conservative
+    superset used for hazard bookkeeping (every root with a pipeline-wide default counts)."""
+    return all(
+        r in kw or r in fn["bound"] or (r in m.defaults if any_default else _func_level_default(fn, m, r))
+        for r in m.needed_roots(fn["outs"][0])
+    )
 
 
 def _targets(prog: dict) -> list:
@@ -424,9 +438,7 @@ class _Twins:
         up = {o for g in m.cone(fn["outs"][0]) if g != f for o in m.funcs[g]["outs"]}
         if not (supplied & up):
             return False
-        if assume_defaults:  # conservative: every root with any default counts as available
-            return all(r in kw or r in fn["bound"] or r in m.defaults for r in m.needed_roots(fn["outs"][0]))
-        return _key_computable(fn, m, kw)
+        return _key_computable(fn, m, kw, any_default=assume_defaults)
 
     # -- one call on both twins -------------------------------------------------------------------
     def call(self, idx: int, out, recipe, style: str) -> None:
@@ -440,7 +452,7 @@ class _Twins:
         # hazards that this call itself introduces
         for f in on_path:
             fn = m.funcs[f]
-            if self._mixed_for(m, f, supplied, kw_u):
+            if self._mixed_for(m, f, supplied, kw_u, assume_defaults=True):
                 self.hz["mixed"].add(f)
             roots_f = m.needed_roots(fn["outs"][0])
             if any(p in roots_f for p in fn["bound"]):
@@ -473,7 +485,7 @@ class _Twins:
             ec = e
         ran_c = {name for name, _ in self.log_c}
         for f in on_path:
-            if _key_computable(m.funcs[f], m, kw_u):
+            if _key_computable(m.funcs[f], m, kw_u, any_default=True):
                 self.stored.add(f)
         if eu is not None:
             self.labels.add("uncached-raised")
@@ -555,7 +567,7 @@ class _Twins:
         fn = funcs[op["func"] % len(funcs)]
         cand = [p for p in fn["params"] if p not in fn["pf_defaults"]]
         k = op["param"] % (len(cand) + 1)
-        upd = {} if k == len(cand) else {cand[k]: f"B{op['val']}"}
+        upd = {} if k == len(cand) else {cand[k]: f"B{op['val']}x{fn['name'][1:]}{cand[k]}"}
         ow = bool(op["overwrite"]) or not upd
         new_bound = dict(upd) if ow else {**fn["bound"], **upd}
         if new_bound == fn["bound"]:
@@ -831,9 +843,9 @@ def body_map(data) -> Outcome:
 
 def campaigns(tier):
     return [
-        Campaign("history", body_history, histories(), quick=10000, thorough=160000,
+        Campaign("history", body_history, histories(), quick=12000, thorough=160000,
                  describe="twin pipelines (cached / uncached) x histories of calls and mutations"),  # fmt: skip
-        Campaign("map", body_map, map_cases(), quick=1200, thorough=16000,
+        Campaign("map", body_map, map_cases(), quick=1400, thorough=16000,
                  describe="MapPrograms mapped twice with a cache vs. without, repeated input values"),  # fmt: skip
     ]
 
